@@ -218,7 +218,13 @@ Inductive obs04 :=
 
 (* the observables: BlockingExecutor, generic Executor on the blocking
    runtime, BlockingExecutor after earlier requests on the same Schema *)
-Definition case_C04 : Type := c04_input * list obs04.
+Definition case1_C04 : Type := c04_input * list obs04.
+
+(* one generated case: a single request with its observables, or a stream of
+   requests served by one long-lived Schema object -- then one entry per
+   distinct request, with its observable on a fresh Schema and every
+   different observable it produced anywhere in the stream *)
+Definition case_C04 : Type := list case1_C04.
 
 Definition model_C04 (i : c04_input) : result :=
   execute (ci_schema i) (coerce_args_c04 (ci_schema i)) (world_of_table (ci_world i))
@@ -233,9 +239,15 @@ Definition obs_agrees (m : result) (o : obs04) : bool :=
   | _, _ => false
   end.
 
-Definition agree_C04 (c : case_C04) : bool :=
+Definition agree1_C04 (c : case1_C04) : bool :=
   let m := model_C04 (fst c) in
   match snd c with
   | [] => false
   | os => forallb (obs_agrees m) os
+  end.
+
+Definition agree_C04 (c : case_C04) : bool :=
+  match c with
+  | [] => false
+  | _ => forallb agree1_C04 c
   end.
